@@ -20,6 +20,8 @@ def run(rep):
     rep.guard(t6, rep, w)
     rep.guard(t7, rep, w)
     rep.guard(t8, rep, w)
+    import c03_progress
+    rep.guard(c03_progress.t9, rep, w)
 
 
 def t1(rep, w):
@@ -113,7 +115,23 @@ def t2(rep, w):
                 ok = pl is not None and any(q[0][0] == 'call' and q[0][2] == SC + 'get_next_char_boundary' for q in org.get(pl['l'], ()))
     r.check(ok, 'Scanner::advance: current = get_next_char_boundary(current)', 'advance no longer moves `current` to the next boundary', av.loc())
     gb = w.require_fn(SC + 'get_next_char_boundary', 'C03')
-    plus1 = any(s.get('r', {}).get('rv') == 'bin' and s['r']['op'].startswith('Add') and (op_const(s['r']['b']) or {}).get('v') == 1 for b in gb.blocks for s in b['s'])
+    gorg = origins(gb)
+
+    def positive(o):
+        k = op_const(o)
+        if k is not None:
+            return isinstance(k.get('v'), int) and k['v'] >= 1
+        pl = op_place(o)
+        return pl is not None and any(q[0][0] == 'call' and q[0][2].endswith('::len_utf8') for q in gorg.get(pl['l'], ()))
+    bodies = [gb] + [x for x in w.fns.values() if x.kind == 'Closure' and x.parent == gb.path]
+
+    def positive_in(h, o):
+        k = op_const(o)
+        if k is not None:
+            return isinstance(k.get('v'), int) and k['v'] >= 1
+        pl = op_place(o)
+        return pl is not None and any(q[0][0] == 'call' and q[0][2].endswith('::len_utf8') for q in origins(h).get(pl['l'], ()))
+    plus1 = any(s.get('r', {}).get('rv') == 'bin' and s['r']['op'].startswith('Add') and (positive_in(h, s['r']['b']) or positive_in(h, s['r']['a'])) for h in bodies for b in h.blocks for s in b['s'])
     r.check(plus1, 'get_next_char_boundary searches from start + 1', 'the next boundary may equal the current position (no progress)', gb.loc())
     # loops in the parser driver: every cycle contains a call that may scan a token, i.e. the sub-graph of blocks without such
     # a call is acyclic
@@ -302,7 +320,7 @@ def t6(rep, w):
     GB = SC + 'get_next_char_boundary'
     SAFE_FIELDS = {'current', 'start'}
 
-    def safe_identity(f, org, o):
+    def safe_identity(f, org, o, depth=0):
         k = op_const(o)
         if k is not None:
             return k.get('v') == 0, 'const %s' % k.get('v')
@@ -326,6 +344,11 @@ def t6(rep, w):
                 continue
             if q[0][0] == 'const' and q[0][1] == 0 and not toks:
                 continue
+            if q[0][0] == 'arg' and not toks and depth < 3 and f.path.startswith(SC):
+                # a parameter: every caller has to pass a position that is safe by the same standard
+                sites = c01.callers_of(w, f.path)
+                if sites and all(not t_.get('inlined') and len(t_['args']) >= q[0][1] and safe_identity(cf, origins(cf), t_['args'][q[0][1] - 1], depth + 1)[0] for (cf, _, t_) in sites):
+                    continue
             why.append('%s %s' % (q[0][2].rsplit('::', 1)[-1] if q[0][0] == 'call' else q[0], toks))
         return not why, '; '.join(why[:2])
     n = 0
@@ -393,6 +416,73 @@ def t6(rep, w):
                             'boundary by construction (%s)' % why, f.loc(s.get('sp')))
     if n < 6:
         raise Broken('C03', 'floor', 'T6: only %d slice endpoints / cursor writes found in the scanner' % n)
+    # ... and the producer keeps its side of the contract: whatever get_next_char_boundary returns is a position the string itself
+    # vouched for -- len(), a position is_char_boundary accepted, or a minimum with len(). (A position past the end is handed out
+    # when the input stops in the middle of a token; callers slice with it without an end-of-input test.)
+    g = w.require_fn(GB, 'C03')
+    org = origins(g)
+    dom = g.dominators()
+
+    def is_len(q):
+        return q[0][0] == 'call' and strip_generics(q[0][2]).endswith('::len') and not [t for t in q[1:] if t != '*']
+    vouched = []        # (true-edge block, origins of the accepted position)
+    for bi, t in g.calls():
+        if not strip_generics(callee_name(t) or '').endswith('::is_char_boundary'):
+            continue
+        pl = op_place(t['args'][1])
+        tgt = t.get('to')
+        for _ in range(3):
+            tt = g.blocks[tgt]['t']
+            if tt['t'] == 'switch' and op_place(tt['d']) and op_place(tt['d'])['l'] == t['dst']['l']:
+                vouched.append((tt['else'], frozenset(org.get(pl['l'], ())) if pl else frozenset()))
+                break
+            tgt = tt.get('to') if tt['t'] == 'goto' else None
+            if tgt is None:
+                break
+    # true edges of `x < len()` / `x <= len()` tests (and false edges of `x >= len()` / `x > len()`): (entry block, origins of x)
+    bounded = []
+    for bi in g.normal_blocks():
+        b = g.blocks[bi]
+        t = b['t']
+        if t['t'] != 'switch' or op_place(t['d']) is None:
+            continue
+        for s_ in b['s']:
+            rr = s_.get('r', {})
+            if s_.get('d', {}).get('l') != op_place(t['d'])['l'] or rr.get('rv') != 'bin' or rr['op'] not in ('Lt', 'Le', 'Gt', 'Ge'):
+                continue
+            pa, pb = op_place(rr['a']), op_place(rr['b'])
+            la = pa is not None and any(is_len(q) for q in org.get(pa['l'], ()))
+            lb = pb is not None and any(is_len(q) for q in org.get(pb['l'], ()))
+            zero = [tb for v, tb in t['cases'] if v == 0]
+            if lb and pa is not None and not la:      # x <op> len
+                edge = t['else'] if rr['op'] in ('Lt', 'Le') else (zero[0] if zero else None)
+                bounded.append((edge, frozenset(org.get(pa['l'], ()))))
+            if la and pb is not None and not lb:      # len <op> x
+                edge = t['else'] if rr['op'] in ('Gt', 'Ge') else (zero[0] if zero else None)
+                bounded.append((edge, frozenset(org.get(pb['l'], ()))))
+    rets = 0
+    for bi in g.normal_blocks():
+        b = g.blocks[bi]
+        cands = [(s['r'], s.get('sp')) for s in b['s'] if s.get('d', {}).get('l') == 0 and not s['d'].get('p')]
+        for rr, sp in cands:
+            rets += 1
+            if rr.get('rv') != 'use' or op_place(rr['o']) is None:
+                r.ok('get_next_char_boundary / result #%d is not plain arithmetic on the start position' % rets)
+                continue
+            mine = frozenset(org.get(op_place(rr['o'])['l'], ()))
+            # decided only for positions computed by plain arithmetic on the argument (start + 1, stepped in a loop): anything that
+            # went through the string's own API (an iterator over ..len(), find, len_utf8, min) is not judged here
+            arith = bool(mine) and all(q[0][0] in ('arg', 'const') for q in mine)
+            ok = (not arith) or any(mine == vo and tb in dom.get(bi, ()) for tb, vo in vouched) or any(mine == vo and tb is not None and tb in dom.get(bi, ()) for tb, vo in bounded)
+            r.check(ok, 'get_next_char_boundary / result #%d: a position computed from the argument is compared with len() (or accepted by is_char_boundary) before it is returned' % rets,
+                    'get_next_char_boundary returns a position computed by arithmetic on its argument without a test against len() on that path: called at the end of the '
+                    'input it hands out len() + 1, and the scanner slices with it (a source that stops in the middle of a token makes the compiler panic)', g.loc(sp))
+        t = b['t']
+        if t['t'] == 'call' and t.get('dst', {}).get('l') == 0 and not t['dst'].get('p'):
+            rets += 1
+            r.ok('get_next_char_boundary / result #%d is the result of %s' % (rets, (callee_name(t) or '?').rsplit('::', 1)[-1]))
+    if rets < 1:
+        raise Broken('C03', 'floor', 'T6: get_next_char_boundary has %d result assignments' % rets)
 
 
 def t7(rep, w):
@@ -516,3 +606,4 @@ def t8(rep, w):
             r.check(guarded, '%s / element read #%d' % (f.path.rsplit('::', 1)[-1], n), 'the scanner indexes at a position that was not compared with the length first: at the end of a text that '
                     'stops inside a token the position equals len and the compiler panics ("index out of bounds") instead of reporting an error', f.loc(t.get('sp')))
     r.note('element-wise reads in the scanner on this tree: %d' % n)
+
